@@ -155,8 +155,12 @@ class _FailingRaw(io.RawIOBase):
     stderr returns an error (EPIPE: the reader went away; ENOSPC/EFBIG: the
     log file is full); every later one fails too"""
 
-    def __init__(self, raw, k, err):
+    def __init__(self, raw, k, err, real_pipe=False):
         self.raw, self.k, self.err, self.n, self.sink = raw, k, err, 0, None
+        # real_pipe: from the k-th write on, descriptor 2 IS a pipe nobody
+        # reads: the kernel answers EPIPE - or kills the process with SIGPIPE
+        # if the program restored the default disposition of that signal
+        self.real_pipe = real_pipe
 
     def writable(self):
         return True
@@ -170,6 +174,13 @@ class _FailingRaw(io.RawIOBase):
             if self.sink is not None and self.n == self.k:
                 self.sink.log_json('X', {'k': -1, 'why': 'stderr-write-failed',
                                          'n': self.n, 'text': bytes(b)[:80].decode('ascii', 'replace')})
+            if self.real_pipe:
+                if self.n == self.k:
+                    r_, w_ = os.pipe()
+                    os.close(r_)
+                    os.dup2(w_, 2)
+                    os.close(w_)
+                return os.write(2, bytes(b))
             raise OSError(self.err, os.strerror(self.err))
         return self.raw.write(b)
 
@@ -204,7 +215,8 @@ def _child(script, argv, env, cwd, stdin_fd, out_fd, err_fd, logfd, world,
         fail_at = (plan or {}).get('stderr_fail_at')
         if fail_at:
             raw_err = _FailingRaw(raw_err, int(fail_at),
-                                  (plan or {}).get('stderr_errno', 32))
+                                  (plan or {}).get('stderr_errno', 32),
+                                  bool((plan or {}).get('stderr_real_pipe')))
         sys.stderr = io.TextIOWrapper(raw_err, encoding=enc,
                                       errors='backslashreplace',
                                       line_buffering=True)
